@@ -18,7 +18,7 @@ pub fn check(tier: Tier) -> Check {
         also_rel: false,
         property: "C12",
         level: "exploration",
-        rule: "all request kinds (publish QoS 0/1/2 with payload 0..max and topic 1..3 bytes, subscribe / unsubscribe with 1-2 filters and 0-1 user property, ping, disconnect with / without reason string) x M in {L-1, L, L+1, 1, 2^32-1, absent} x Receive Maximum in {1, absent} x CONNACK {bare, carrying six other properties around them} x connection flavour {bare, every CONNECT option set incl. the client's own Maximum Packet Size 16 and Session Present = 1}, L computed by the reference encoder; followed by a QoS 1 publish, its PUBACK, an accepted subscribe, and an inbound PUBLISH naming the rejected subscription's would-be identifier; non-trivial = a request was refused for size".into(),
+        rule: "all request kinds (publish QoS 0/1/2 with payload 0..max and topic 1..3 bytes, subscribe / unsubscribe with 1-2 filters and 0-1 user property, ping, disconnect with / without reason string) x M in {L-1, L, L+1, 1, 2^32-1, absent} x Receive Maximum in {1, absent} x CONNACK {bare, carrying six other properties around them} x connection flavour {bare, every CONNECT option set incl. the client's own Maximum Packet Size 16 and Session Present = 1, a CONNACK received through authorize()}, L computed by the reference encoder; followed by a QoS 1 publish, its PUBACK, an accepted subscribe, and an inbound PUBLISH naming the rejected subscription's would-be identifier; non-trivial = a request was refused for size".into(),
         assumptions: vec![],
         parts,
     }
@@ -85,7 +85,7 @@ pub fn scenario(name: &str, params: &Value) -> Scenario {
             _ => None,
         };
         let r1 = chz.choose(2) == 1;
-        let flavour = chz.choose(2) as u64;
+        let flavour = chz.choose(3) as u64;
         // (the flavoured connection already carries these properties; a property must not repeat)
         let rich = flavour == 0 && chz.choose(2) == 1;
         let mut props = vec![];
